@@ -18,7 +18,7 @@ class CallMixin(object):
     SPEC_FORMS = {"forall", "exists", "old", "let"}
     SPEC_FUNCS = {"isinf", "isnan", "is_int", "abs", "min", "max", "len", "finite", "implies", "iff", "ite", "fresh",
                   "floor", "trunc", "has", "get", "real", "allocated_before", "same", "sqrt", "arr", "add_rtp", "add_rtn",
-                  "sub_rtp", "sub_rtn", "exact_add", "exact_sub", "rn_add", "rn_sub", "pow", "next_up", "next_down"}
+                  "sub_rtp", "sub_rtn", "exact_add", "exact_sub", "rn_add", "rn_sub", "pow", "glob", "next_up", "next_down"}
 
     # ------------------------------------------------------------------ dispatch
     def call_value(self, f, args, kwargs, spec, node=None):
@@ -408,6 +408,9 @@ class CallMixin(object):
             return op(z3.RTP() if name.endswith("rtp") else z3.RTN(), a, b)
         if name == "pow":
             return self.float_pow(args[0], args[1], True)
+        if name == "glob":
+            # glob("pkg.module", "name"): a module global of another module (declared with module_global)
+            return self.lookup_global(loader.load_module(args[0]), args[1])
         if name == "arr":
             v = args[0]
             return ArrV(ctx.list_arr(v, v.ty.base.args[0]), v.ty.base.args[0])
